@@ -5,6 +5,7 @@ REGISTRY = {
     'C01': ('sim.props.c01', 'C01'),
     'C02': ('sim.props.c02', 'C02'),
     'C08': ('sim.props.c08', 'C08'),
+    'C13': ('sim.props.c13', 'C13'),
 }
 
 
